@@ -35,23 +35,25 @@ Proof. exact C16_near_points_proof. Qed.
 Print Assumptions C16_near_points.
 
 (* One near-field axis, exact arithmetic: exactly n points at s + k*i for
-   every start, every non-zero increment and every count. *)
+   every start, EVERY increment (zero included: n points at the start) and
+   every count. *)
 Theorem C16_near_axis_exact :
-  forall (s i : R) (c : Z), i <> 0%R ->
+  forall (s i : R) (c : Z),
     length (@grid_axis RNum s i (IZR c)) = Z.to_nat c /\
     forall k, (k < Z.to_nat c)%nat ->
       nth k (@grid_axis RNum s i (IZR c)) 0%R = (s + INR k * i)%R.
 Proof. exact C16_near_axis_exact_proof. Qed.
 Print Assumptions C16_near_axis_exact.
 
-(* One near-field axis, any instance (binary64 included): the count is right
-   exactly when numpy's arange produced at least n elements. *)
+(* One near-field axis, any instance (binary64 included): for a zero increment
+   always; otherwise the count is right exactly when numpy's arange produced at
+   least n elements. *)
 Theorem C16_near_axis_any_instance :
   forall (N : Num) (s i n : T),
-    (Z.to_nat (ntrunc n) <= np_arange_len s (add s (mul n i)) i)%nat ->
+    (eqb i zero = false -> Z.to_nat (ntrunc n) <= np_arange_len s (add s (mul n i)) i)%nat ->
     length (grid_axis s i n) = Z.to_nat (ntrunc n) /\
     forall k, (k < Z.to_nat (ntrunc n))%nat ->
-      nth k (grid_axis s i n) zero = np_arange_elt s i k.
+      nth k (grid_axis s i n) zero = if eqb i zero then s else np_arange_elt s i k.
 Proof. exact C16_near_axis_any_instance_proof. Qed.
 Print Assumptions C16_near_axis_any_instance.
 
